@@ -561,6 +561,10 @@ func sortedTasks(tasks map[string]*Task) []*Task {
 
 func sortByCreatedAt(tasks []*Task) {
 	sort.Slice(tasks, func(i, j int) bool {
+		// Tie-break on ID so that equal timestamps do not expose map iteration order.
+		if tasks[i].CreatedAt.Equal(tasks[j].CreatedAt) {
+			return tasks[i].ID < tasks[j].ID
+		}
 		return tasks[i].CreatedAt.Before(tasks[j].CreatedAt)
 	})
 }
